@@ -262,14 +262,14 @@ def profile_errors(ctx, n, size):
         if n < 2:
             continue
         for j, c in enumerate([1.0, 2.0, 3.0]):
-            v = nat[j]
+            v = nat[j] if hasattr(nat, '__len__') else nat       # a scalar NaN where an array is required
             if isinstance(v, float) and v != v:
                 ctx.goal('native_var[%d,%d]' % (r, j), False)
             else:
                 sq, ok = _squared(ctx, v)
                 ctx.goal('native_var[%d,%d]' % (r, j), ctx.and_(ok, ctx.eq(sq, c * c * var, scale=None if ctx.sym else 1.0)))
         for j, c in enumerate([1000.0, 500.0]):
-            v = tp[j]
+            v = tp[j] if hasattr(tp, '__len__') else tp
             if isinstance(v, float) and v != v:
                 ctx.goal('temp_var[%d,%d]' % (r, j), False)
             else:
